@@ -69,6 +69,14 @@ add('C29', 'exploration',
     'and a raising call must leave the output buffer empty.',
     'Reads conn.state_machine.state and the stream-id watermarks (getattr, read-only) only to decide when the lookup rule applies.')
 
+add('C02', 'exploration',
+    'runtime monitoring: strict independent wire parser over all emitted bytes + per-call emission specification',
+    'All output is re-parsed with an independent codec (no hyperframe): preface, initial SETTINGS, no frame defects, payload '
+    '<= peer MAX_FRAME_SIZE as delivered at emission time, header-block contiguity; every successful call is compared with an '
+    'emission specification (frame types, ids, flags, padding, priority fields, codes, increments, settings pairs, opaque data) '
+    'and header blocks are decoded by a monitor-owned HPACK decoder. Header blocks are sized to +-12 bytes of k*MAX_FRAME_SIZE.',
+    'Header lists in this workload are already in normal form (normalisation is C14); E.encoder is deep-copied only to size inputs.')
+
 NOT_BUILT_REASON = 'check not built yet in this session (planned in DESIGN.md; no verdict claimed)'
 
 def main():
